@@ -11,89 +11,11 @@ From Coq Require Import String.
 From Coq Require Import List ZArith NArith Bool Arith Lia.
 Import ListNotations.
 Require Import PyLib PyLib2 PyRe PyHash Str IpText Md5 Rx RxFacts RxSub G_rx G_text_consts G_juniper JunModel JunProofs TextModel TextProofs2 TotalProofs G_fn_jun G_fn_sir G_fn_sir2 RefJun RefJunEnc RefJunDec RefEncl.
+Require Export RefBase.
 
 Notation vstr := RefJun.vstr.
 Lemma vstr_same s : RefEncl.vstr s = vstr s. Proof. reflexivity. Qed.
 
-Definition vlook (l : lookup_t) : pyval := VDict (map (fun kv => (vstr (fst kv), vstr (snd kv))) l).
-Definition vres (l : list str) : pyval := VList (map vstr l).
-
-Lemma veq_vstr_eqb a b : veq (vstr a) (vstr b) = str_eqb a b. Proof. exact (RefEncl.veq_vstr a b). Qed.
-Lemma dict_get_vlook l k : dict_get (map (fun kv => (vstr (fst kv), vstr (snd kv))) l) (vstr k) = option_map vstr (lget l k).
-Proof. induction l as [|[k' v'] l IH]; cbn [map dict_get lget fst snd option_map]; [reflexivity|]. rewrite veq_vstr_eqb. destruct (str_eqb k k'); [reflexivity|exact IH]. Qed.
-Lemma dict_get_vlook_none l : dict_get (map (fun kv => (vstr (fst kv), vstr (snd kv))) l) VNone = None.
-Proof. induction l as [|[k' v'] l IH]; cbn [map dict_get fst snd]; [reflexivity|]. exact IH. Qed.
-Lemma py_in_vres val reserved : py_in (vstr val) (vres reserved) = Normal (VBool (mem_str val reserved)).
-Proof. unfold py_in, vres, mem_str. f_equal. f_equal. induction reserved as [|r l IH]; cbn [map existsb]; [reflexivity|]. now rewrite veq_vstr_eqb, IH. Qed.
-Lemma py_not_vstr v : py_not (vstr v) = Normal (VBool (is_empty v)).
-Proof. unfold py_not, RefJun.vstr. cbn [truthy]. rewrite map_length. destruct v; reflexivity. Qed.
-Lemma truthy_vstr v : truthy (vstr v) = negb (is_empty v).
-Proof. unfold RefJun.vstr. cbn [truthy]. rewrite map_length. destruct v; reflexivity. Qed.
-Lemma py_in_vlook k l : py_in (vstr k) (vlook l) = Normal (VBool (match lget l k with Some _ => true | None => false end)).
-Proof. unfold py_in, vlook. rewrite dict_get_vlook. destruct (lget l k); reflexivity. Qed.
-Lemma py_getitem_vlook k l v : lget l k = Some v -> py_getitem (vlook l) (vstr k) = Normal (vstr v).
-Proof. intro H. unfold py_getitem, vlook. unfold RefJun.vstr at 2. fold (vstr k). rewrite dict_get_vlook, H. reflexivity. Qed.
-Lemma py_len_vlook l : py_len (vlook l) = Normal (VInt (Z.of_nat (length l))).
-Proof. unfold vlook. cbn [py_len]. now rewrite map_length. Qed.
-
-(* dict assignment against lset, for tables without duplicate keys (every table built by lset from the empty one) *)
-Definition keys_unique (l : lookup_t) : Prop := NoDup (map fst l).
-Lemma lget_none_notin l k : lget l k = None -> ~ In k (map fst l).
-Proof. induction l as [|[k' v'] l IH]; cbn [lget map fst In]; [tauto|]. destruct (str_eqb k k') eqn:E; [discriminate|]. intros H [->|Hin]; [rewrite str_eqb_refl in E; discriminate|exact (IH H Hin)]. Qed.
-Lemma lget_some_in l k v : lget l k = Some v -> In k (map fst l).
-Proof. induction l as [|[k' v'] l IH]; cbn [lget map fst In]; [discriminate|]. destruct (str_eqb k k') eqn:E; [intros _; left; symmetry; now apply str_eqb_eq|intro H; right; exact (IH H)]. Qed.
-Lemma map_id_notin (l : lookup_t) k v : ~ In k (map fst l) -> map (fun kv => if str_eqb (fst kv) k then (k, v) else kv) l = l.
-Proof. induction l as [|[k' v'] l IH]; cbn [map fst In]; [reflexivity|]. intro H. destruct (str_eqb k' k) eqn:E; [exfalso; apply H; left; now apply str_eqb_eq|]. f_equal. apply IH. tauto. Qed.
-Lemma dict_set_vlook l k v : keys_unique l ->
-  dict_set (map (fun kv => (vstr (fst kv), vstr (snd kv))) l) (vstr k) (vstr v) = map (fun kv => (vstr (fst kv), vstr (snd kv))) (lset l k v).
-Proof.
-  unfold keys_unique, lset. induction l as [|[k' v'] l IH]; intro Hu; cbn [map fst snd dict_set lget]; [reflexivity|].
-  inversion Hu as [|? ? Hnot Hu']; subst. rewrite veq_vstr_eqb. destruct (str_eqb k k') eqn:E.
-  - apply str_eqb_eq in E. subst k'. cbn [map fst snd]. rewrite str_eqb_refl. cbn [fst snd]. f_equal. now rewrite map_id_notin.
-  - specialize (IH Hu'). destruct (lget l k) eqn:El.
-    + cbn [map fst snd]. assert (E' : str_eqb k' k = false). { destruct (str_eqb k' k) eqn:E2; [|reflexivity]. apply str_eqb_eq in E2. subst. rewrite str_eqb_refl in E. discriminate. }
-      rewrite E'. cbn [fst snd]. f_equal. exact IH.
-    + rewrite map_app in *. cbn [map fst snd app] in *. f_equal. exact IH.
-Qed.
-Lemma NoDup_snoc {A} (l : list A) x : NoDup l -> ~ In x l -> NoDup (l ++ [x]).
-Proof. induction 1 as [|y l Hy Hl IH]; cbn [app]; intro Hx; [constructor; [tauto|constructor]|]. constructor; [rewrite in_app_iff; cbn [In] in *; intuition congruence|apply IH; cbn [In] in Hx; tauto]. Qed.
-Lemma lset_keys_unique l k v : keys_unique l -> keys_unique (lset l k v).
-Proof.
-  unfold keys_unique, lset. intro Hu. destruct (lget l k) eqn:El.
-  - replace (map fst (map (fun kv => if str_eqb (fst kv) k then (k, v) else kv) l)) with (map fst l); [exact Hu|].
-    rewrite map_map. apply map_ext. intros [k' v']. cbn [fst]. destruct (str_eqb k' k) eqn:E; [apply str_eqb_eq in E; now subst|reflexivity].
-  - rewrite map_app. cbn [map fst]. apply NoDup_snoc; [exact Hu|now apply lget_none_notin].
-Qed.
-
-(* decimal rendering: Python's str(int) in the library model against the model's show_dec *)
-Lemma digits_show : forall f x acc,
-  map Z.of_N (show_dec_aux f x acc) = (map dchar (rev (digits_rev f 10 (Z.of_N x))) ++ map Z.of_N acc)%list.
-Proof.
-  induction f as [|f IH]; intros x acc; cbn [show_dec_aux digits_rev]; [reflexivity|].
-  assert (E10 : (Z.of_N x <? 10)%Z = (x <? 10)%N).
-  { destruct (N.ltb_spec x 10); [apply Z.ltb_lt|apply Z.ltb_ge]; lia. }
-  rewrite E10. destruct (N.ltb_spec x 10) as [L|L].
-  - cbn [rev app map]. unfold dchar. replace (Z.of_N x <? 10)%Z with true by (symmetry; apply Z.ltb_lt; lia).
-    rewrite N.mod_small by lia. f_equal. lia.
-  - rewrite IH. cbn [rev map]. rewrite map_app, <- app_assoc. cbn [map app]. rewrite N2Z.inj_div. f_equal. f_equal.
-    unfold dchar. assert (0 <= Z.of_N x mod 10 < 10)%Z by (apply Z.mod_pos_bound; lia).
-    replace (Z.of_N x mod 10 <? 10)%Z with true by (symmetry; apply Z.ltb_lt; lia). rewrite N2Z.inj_add, N2Z.inj_mod. reflexivity.
-Qed.
-Lemma nat_str_show x : nat_str 10 (Z.of_N x) = map Z.of_N (show_dec x).
-Proof.
-  unfold nat_str, show_dec. rewrite digits_show. cbn [map]. rewrite app_nil_r.
-  replace (Z.to_nat (Z.log2 (Z.of_N x))) with (N.to_nat (N.log2 x)); [reflexivity|].
-  assert (EL : Z.log2 (Z.of_N x) = Z.of_N (N.log2 x)) by (destruct x as [|[p|p|]]; reflexivity). rewrite EL. lia.
-Qed.
-Lemma py_str_nat n : py_str (VInt (Z.of_nat n)) = Normal (vstr (show_dec (N.of_nat n))).
-Proof. unfold py_str. replace (Z.of_nat n <? 0)%Z with false by (symmetry; apply Z.ltb_ge; lia). rewrite <- nat_N_Z, nat_str_show. reflexivity. Qed.
-
-Lemma format_removed n :
-  py_format (VStr [110;101;116;99;111;110;97;110;82;101;109;111;118;101;100;123;125]%Z) (VList [VInt (Z.of_nat n)]) (VDict [])
-  = Normal (vstr (lit "netconanRemoved" ++ show_dec (N.of_nat n))).
-Proof. unfold py_format. cbn -[py_str]. rewrite py_str_nat. cbn -[show_dec]. reflexivity. Qed.
-
-(* the format classifier translated from the source (the one the model itself calls) always answers with one of the seven codes *)
 Lemma classify_spec pc fuel val :
   exists z, gen__check_sensitive_item_format pc fuel (vstr val) = Normal (VInt z) /\ check_format val = Z.to_N z /\ In z [1;2;3;4;5;6;7]%Z.
 Proof.
@@ -106,69 +28,6 @@ Proof.
 Qed.
 
 (* UTF-8 of ASCII text is the text; hexadecimal of bytes parses back to the big-endian number *)
-Lemma utf8_ascii s : Forall (fun c => c < 128)%N s -> utf8 s = Some s.
-Proof. induction 1 as [|c s Hc _ IH]; cbn [utf8]; [reflexivity|]. unfold utf8_char. replace (c <? 128)%N with true by (symmetry; now apply N.ltb_lt). now rewrite IH. Qed.
-Lemma show_dec_aux_ascii : forall f x acc, Forall (fun c => c < 128)%N acc -> Forall (fun c => c < 128)%N (show_dec_aux f x acc).
-Proof.
-  induction f as [|f IH]; intros x acc Ha; cbn [show_dec_aux]; [exact Ha|].
-  assert (H : Forall (fun c => c < 128)%N ((48 + x mod 10) :: acc)%N).
-  { constructor; [|exact Ha]. assert (x mod 10 < 10)%N by (apply N.mod_upper_bound; discriminate). lia. }
-  destruct (x <? 10)%N; [exact H|apply IH; exact H].
-Qed.
-Lemma anon0_ascii lookup : Forall (fun c => c < 128)%N (anon0_of lookup).
-Proof. unfold anon0_of. apply Forall_app. split; [repeat constructor|]. unfold show_dec. apply show_dec_aux_ascii. constructor. Qed.
-
-Lemma digit_val_hex d : (d < 16)%N -> digit_val (Z.of_N (hex_digit d)) = Some (Z.of_N d).
-Proof.
-  intro H. assert (E : forallb (fun d => match digit_val (Z.of_N (hex_digit d)) with Some v => Z.eqb v (Z.of_N d) | None => false end) (map N.of_nat (seq 0 16)) = true) by (vm_compute; reflexivity).
-  rewrite forallb_forall in E. specialize (E d). lapply E; [|apply in_map_iff; exists (N.to_nat d); split; [lia|apply in_seq; lia]].
-  destruct (digit_val (Z.of_N (hex_digit d))); [|discriminate]. intro Hz. apply Z.eqb_eq in Hz. now subst.
-Qed.
-Lemma parse_hex_bytes : forall bs acc, Forall (fun c => c < 256)%N bs ->
-  parse_int 16 (Z.of_N acc) (map Z.of_N (hex_of_bytes bs)) = Some (Z.of_N (fold_left (fun a b => 256 * a + b)%N bs acc)).
-Proof.
-  induction bs as [|b bs IH]; intros acc Hb; [reflexivity|]. inversion Hb as [|? ? Hb1 Hb2]; subst.
-  unfold hex_of_bytes. cbn [flat_map app map parse_int fold_left]. fold (hex_of_bytes bs).
-  assert (b / 16 < 16)%N by (apply N.div_lt_upper_bound; lia). assert (b mod 16 < 16)%N by (apply N.mod_upper_bound; discriminate).
-  rewrite !digit_val_hex by assumption.
-  replace (Z.of_N (b / 16) <? 16)%Z with true by (symmetry; apply Z.ltb_lt; lia). replace (Z.of_N (b mod 16) <? 16)%Z with true by (symmetry; apply Z.ltb_lt; lia).
-  replace ((Z.of_N acc * 16 + Z.of_N (b / 16)) * 16 + Z.of_N (b mod 16))%Z with (Z.of_N (256 * acc + b)).
-  - apply IH. exact Hb2.
-  - rewrite (N.div_mod b 16) at 1 by discriminate. lia.
-Qed.
-Lemma py_str_N x : py_str (VInt (Z.of_N x)) = Normal (vstr (show_dec x)).
-Proof. unfold py_str. replace (Z.of_N x <? 0)%Z with false by (symmetry; apply Z.ltb_ge; lia). now rewrite nat_str_show. Qed.
-Lemma b2a_hex_ascii s : Forall (fun c => c < 128)%N s -> py_b2a_hex_encode (vstr s) = Normal (vstr (hex_of_bytes s)).
-Proof. intro H. unfold py_b2a_hex_encode, RefJun.vstr. rewrite to_of_N, (utf8_ascii s H). reflexivity. Qed.
-Lemma hex_nonempty b bs : hex_of_bytes (b :: bs) <> []. Proof. discriminate. Qed.
-Lemma numeric_of_ascii s : s <> [] -> Forall (fun c => c < 128)%N s ->
-  PyLib.bind (py_b2a_hex_encode (vstr s)) (fun t24 => PyLib.bind (py_int t24 (VInt 16)) (fun t25 => py_str t25)) = Normal (vstr (to_decimal_of_bytes s)).
-Proof.
-  intros Hne Ha. rewrite (b2a_hex_ascii s Ha). cbn [PyLib.bind]. unfold py_int, RefJun.vstr at 1.
-  destruct s as [|b bs]; [congruence|]. destruct (map Z.of_N (hex_of_bytes (b :: bs))) eqn:Eh; [discriminate|]. rewrite <- Eh.
-  change 0%Z with (Z.of_N 0). rewrite parse_hex_bytes by (eapply Forall_impl; [|exact Ha]; intros; cbv beta in *; lia).
-  cbn [PyLib.bind]. rewrite py_str_N. reflexivity.
-Qed.
-
-Lemma py_int_hex s : s <> [] -> Forall (fun c => c < 128)%N s ->
-  py_int (vstr (hex_of_bytes s)) (VInt 16) = Normal (VInt (Z.of_N (fold_left (fun a b => 256 * a + b)%N s 0%N))).
-Proof.
-  intros Hne Ha. unfold py_int, RefJun.vstr.
-  destruct s as [|b bs]; [congruence|]. destruct (map Z.of_N (hex_of_bytes (b :: bs))) eqn:Eh; [discriminate|]. rewrite <- Eh.
-  change 0%Z with (Z.of_N 0). rewrite parse_hex_bytes by (eapply Forall_impl; [|exact Ha]; intros; cbv beta in *; lia). reflexivity.
-Qed.
-
-(* s.split("$") in the library model against the text model's split_on *)
-Lemma split_same sep : forall s cur, PyLib.split_on (Z.of_N sep) (map Z.of_N cur) (map Z.of_N s) = map (map Z.of_N) (Str.split_on_aux sep s cur).
-Proof.
-  induction s as [|c s IH]; intro cur; cbn [map PyLib.split_on Str.split_on_aux]; [now rewrite map_rev|].
-  replace (Z.of_N c =? Z.of_N sep)%Z with (c =? sep)%N by (destruct (N.eqb_spec c sep); [subst; symmetry; apply Z.eqb_refl|symmetry; apply Z.eqb_neq; lia]).
-  destruct (c =? sep)%N; cbn [map]; [rewrite map_rev; f_equal; exact (IH [])|exact (IH (c :: cur))].
-Qed.
-Lemma py_split1_vstr s sep : py_split1 (vstr s) (Z.of_N sep) = Normal (VList (map vstr (Str.split_on sep s))).
-Proof. unfold py_split1, RefJun.vstr, Str.split_on. change (@nil Z) with (map Z.of_N []). rewrite split_same, map_map. reflexivity. Qed.
-
-(* a value classified as md5-crypt starts with "$1$" (read off the generated pattern through the regex semantics) *)
 Lemma single_range x a : in_cset x (CRanges false [(a, a)]) = true -> x = a.
 Proof. unfold in_cset. cbn [existsb fst snd xorb]. intro H. destruct (N.leb_spec a x), (N.leb_spec x a); cbn in H; try discriminate; lia. Qed.
 Lemma three_head (val : str) A B C r p :
@@ -190,9 +49,6 @@ Proof.
   all: cbn [PyLib.bind PyLib.bindS truthy call]; intro H4; try discriminate.
   all: match goal with H : match_start ?v RX_LIT2 = Some _ |- _ => exact (three_head v _ _ _ _ _ H) end.
 Qed.
-Lemma split_aux_nonempty sep : forall s cur, exists f fs, Str.split_on_aux sep s cur = f :: fs.
-Proof. induction s as [|c s IH]; intro cur; cbn [Str.split_on_aux]; [eauto|]. destruct (c =? sep)%N; [eauto|apply IH]. Qed.
-
 Lemma av_lookup_shape orc raw lookup reserved salt out lookup' :
   anonymize_value orc raw lookup reserved salt = Done (out, lookup') -> lookup' = lookup \/ exists k v, lookup' = lset lookup k v.
 Proof.
@@ -228,16 +84,6 @@ Lemma sw_vstr v t : py_startswith (vstr v) (vstr t) = Normal (VBool (starts_with
 Lemma encl_vstr pc fuel raw : (length raw < fuel)%nat ->
   gen__extract_enclosing_text pc fuel (vstr raw) (VStr []) (VStr []) = (let '(h, v, t) := extract_enclosing raw [] [] in Normal (VTuple [vstr h; vstr v; vstr t])).
 Proof. exact (gen_extract_enclosing_refines_fuel pc fuel raw [] []). Qed.
-Definition vod (od : option str) : pyval := match od with Some d => vstr d | None => VNone end.
-
-Lemma py_in_vod od lookup : py_in (vod od) (vlook lookup) = Normal (VBool (match (match od with Some d => lget lookup d | None => None end) with Some _ => true | None => false end)).
-Proof. destruct od as [d|]; cbn [vod]; [apply py_in_vlook|]. unfold py_in, vlook. now rewrite dict_get_vlook_none. Qed.
-
-Lemma py_setitem_vlook l k v : keys_unique l -> py_setitem (vlook l) (vstr k) (vstr v) = Normal (vlook (lset l k v)).
-Proof. intro Hu. unfold py_setitem, vlook. now rewrite dict_set_vlook. Qed.
-Lemma str_repeat_zero n : py_str_repeat (VStr [48%Z]) (VInt (Z.of_nat n)) = Normal (vstr (repeat 48%N n)).
-Proof. unfold py_str_repeat, RefJun.vstr. rewrite Nat2Z.id. f_equal. f_equal. induction n as [|n IH]; cbn [repeat concat map app]; [reflexivity|]. now rewrite IH. Qed.
-
 Ltac fmt_eval := repeat match goal with
   | |- context [N.eqb (Z.to_N ?a) ?F] => let b := eval vm_compute in (N.eqb (Z.to_N a) F) in change (N.eqb (Z.to_N a) F) with b
   end.
@@ -246,7 +92,7 @@ Ltac fin od NotJun Huniq :=
   destruct od as [d|]; cbn [vod]; [rewrite truthy_vstr, (Hemp d eq_refl)|]; cbn [negb truthy];
   cbn [PyLib.bind PyLib.bindS truthy py_eq veq Z.eqb Pos.eqb obind]; rewrite (py_setitem_vlook _ _ _ Huniq);
   cbn [PyLib.bind PyLib.bindS truthy py_eq veq Z.eqb Pos.eqb obind];
-  intros [= <- <-]; rewrite RefJunEnc.py_add_vstr; cbn [PyLib.bind]; rewrite RefJunEnc.py_add_vstr; cbn [PyLib.bind PyLib.bindS call]; now rewrite <- app_assoc.
+  intros [= <- <-]; rewrite RefStr.py_add_vstr; cbn [PyLib.bind]; rewrite RefStr.py_add_vstr; cbn [PyLib.bind PyLib.bindS call]; now rewrite <- app_assoc.
 Ltac steps := cbn [PyLib.bind PyLib.bindS truthy py_eq veq Z.eqb Pos.eqb obind].
 
 Section V.
@@ -282,12 +128,12 @@ Proof.
   { subst mf kk kk2. intros od Hod. cbv beta iota.
     rewrite py_in_vlook. cbn [PyLib.bind truthy].
     destruct (lget lookup val) as [anon|] eqn:Elv.
-    { intros [= <- <-]. rewrite (py_getitem_vlook val lookup anon Elv). cbn [PyLib.bind]. rewrite RefJunEnc.py_add_vstr. cbn [PyLib.bind]. rewrite RefJunEnc.py_add_vstr. cbn [PyLib.bind PyLib.bindS call]. now rewrite <- app_assoc. }
+    { intros [= <- <-]. rewrite (py_getitem_vlook val lookup anon Elv). cbn [PyLib.bind]. rewrite RefStr.py_add_vstr. cbn [PyLib.bind]. rewrite RefStr.py_add_vstr. cbn [PyLib.bind PyLib.bindS call]. now rewrite <- app_assoc. }
     cbn [PyLib.bindS]. rewrite py_in_vod. cbn [PyLib.bind truthy].
     destruct (match od with Some d => lget lookup d | None => None end) as [stored|] eqn:Est.
     { destruct od as [d|]; [|discriminate]. cbn [vod]. rewrite (py_getitem_vlook d lookup stored Est). cbn [PyLib.bind].
       destruct (gen_encrypt_refines pc fuel stored salt (lget_bytes _ _ _ Hbytes Est)) as (crypt & Ec & Eg). unfold jun_encrypt_o. rewrite Ec, Eg. cbn [obind PyLib.bind].
-      intros [= <- <-]. rewrite RefJunEnc.py_add_vstr. cbn [PyLib.bind]. rewrite RefJunEnc.py_add_vstr. cbn [PyLib.bind PyLib.bindS call]. now rewrite <- app_assoc. }
+      intros [= <- <-]. rewrite RefStr.py_add_vstr. cbn [PyLib.bind]. rewrite RefStr.py_add_vstr. cbn [PyLib.bind PyLib.bindS call]. now rewrite <- app_assoc. }
     cbn [PyLib.bindS]. rewrite py_len_vlook. cbn [PyLib.bind]. rewrite format_removed. cbn [PyLib.bind]. fold (anon0_of lookup).
     destruct (classify_spec pc fuel val) as (z & Ecl & Ecf & Hz). rewrite Ecl, Ecf. cbn [PyLib.bind].
     (* what the end of the function does with the replacement a6, once the format-specific steps are through *)
@@ -306,7 +152,7 @@ Proof.
       { rewrite Eval. unfold Str.split_on. cbn [Str.split_on_aux N.eqb Pos.eqb rev app]. now rewrite Esp. }
       change 36%Z with (Z.of_N 36). rewrite py_split1_vstr, Esplit. steps.
       change (VInt 2) with (VInt (Z.of_nat 2)). rewrite (py_getitem_list_nat vstr ([] :: [49%N] :: fld :: flds) 2 fld eq_refl). steps.
-      rewrite RefJunDec.py_len_vstr. steps. cbn [py_min2]. change 8%Z with (Z.of_nat 8). rewrite <- Nat2Z.inj_min. steps. rewrite str_repeat_zero. steps. rewrite Hm.
+      rewrite RefStr.py_len_vstr. steps. cbn [py_min2]. change 8%Z with (Z.of_nat 8). rewrite <- Nat2Z.inj_min. steps. rewrite str_repeat_zero. steps. rewrite Hm.
       cbn [nth]. replace (N.min (N.of_nat (length fld)) 8) with (N.of_nat (Nat.min (length fld) 8)) by lia.
       destruct (olookup orc (lit "m" ++ show_dec (N.of_nat (Nat.min (length fld) 8)) ++ [58%N] ++ anon0_of lookup)) as [h|]; [|steps; discriminate]. steps. fin od NotJun Huniq.
     - (* text *) fin od NotJun Huniq.
@@ -316,11 +162,11 @@ Proof.
       destruct (gen_encrypt_refines pc fuel (anon0_of lookup) salt B0) as (crypt & Ec & Eg). unfold jun_encrypt_o. rewrite Ec, Eg. steps.
       destruct od as [d|]; cbn [vod].
       + rewrite truthy_vstr. destruct (is_empty d) eqn:Ed; cbn [negb]; steps.
-        * rewrite (py_setitem_vlook _ _ _ Huniq). steps. intros [= <- <-]. rewrite RefJunEnc.py_add_vstr. cbn [PyLib.bind]. rewrite RefJunEnc.py_add_vstr. cbn [PyLib.bind PyLib.bindS call]. now rewrite <- app_assoc.
+        * rewrite (py_setitem_vlook _ _ _ Huniq). steps. intros [= <- <-]. rewrite RefStr.py_add_vstr. cbn [PyLib.bind]. rewrite RefStr.py_add_vstr. cbn [PyLib.bind PyLib.bindS call]. now rewrite <- app_assoc.
         * destruct (encrypt_decrypt_roundtrip (anon0_of lookup) salt B0) as (crypt' & Ec' & _ & Hrt). rewrite Ec in Ec'. injection Ec' as <-.
           specialize (Hrt (or_introl Hne0)). pose proof (gen_decrypt_refines pc fuel crypt (Hfuel2 crypt Ec)) as Gd. rewrite Hrt in Gd. rewrite Hrt, Gd. steps.
-          rewrite (py_setitem_vlook _ _ _ Huniq). steps. intros [= <- <-]. rewrite RefJunEnc.py_add_vstr. cbn [PyLib.bind]. rewrite RefJunEnc.py_add_vstr. cbn [PyLib.bind PyLib.bindS call]. now rewrite <- app_assoc.
-      + cbn [truthy]. steps. rewrite (py_setitem_vlook _ _ _ Huniq). steps. intros [= <- <-]. rewrite RefJunEnc.py_add_vstr. cbn [PyLib.bind]. rewrite RefJunEnc.py_add_vstr. cbn [PyLib.bind PyLib.bindS call]. now rewrite <- app_assoc. }
+          rewrite (py_setitem_vlook _ _ _ Huniq). steps. intros [= <- <-]. rewrite RefStr.py_add_vstr. cbn [PyLib.bind]. rewrite RefStr.py_add_vstr. cbn [PyLib.bind PyLib.bindS call]. now rewrite <- app_assoc.
+      + cbn [truthy]. steps. rewrite (py_setitem_vlook _ _ _ Huniq). steps. intros [= <- <-]. rewrite RefStr.py_add_vstr. cbn [PyLib.bind]. rewrite RefStr.py_add_vstr. cbn [PyLib.bind PyLib.bindS call]. now rewrite <- app_assoc. }
   pose proof (decrypt_try pc fuel val Hval) as DT. unfold jun_decrypt_opt.
   destruct (starts_with MAGIC val).
   - destruct (JunModel.decrypt val) as [p| | | |] eqn:Edec; try contradiction; try (cbn [obind]; discriminate).
@@ -354,3 +200,4 @@ Proof.
   intros Ho Hl Hu E. split; [|exact (av_keys_unique orc raw lookup reserved salt out lookup' Hu E)].
   pose proof (anonymize_value_never_raises orc raw lookup reserved salt Ho Hl) as R. rewrite E in R. exact R.
 Qed.
+
